@@ -56,6 +56,10 @@ def shapes():
     S.append(('cubic-S', lambda k: sp.CubicBezier(0j, (4 + 4j) * k, (0 - 4j) * k, (4 + 0j) * k), False))
     S.append(('arc-circle', lambda k: sp.Arc(0j, (5 + 5j) * k, 0, False, True, (6 + 8j) * k), True))
     S.append(('arc-ellipse', lambda k: sp.Arc(0j, (6 + 3j) * k, 30, True, False, (4 + 2j) * k), False))
+    # straight Beziers whose control points lie on the chord in order but are not evenly spaced: straight, yet not traversed at constant speed
+    S.append(('cubic-straight-retracted', lambda k: sp.CubicBezier(0j, 0j, (6 + 8j) * k, (6 + 8j) * k), False))
+    S.append(('cubic-straight-uneven', lambda k: sp.CubicBezier(0j, (0.6 + 0.8j) * k, (1.2 + 1.6j) * k, (6 + 8j) * k), False))
+    S.append(('quad-straight-uneven', lambda k: sp.QuadraticBezier((1 + 1j) * k, (1.3 + 1.4j) * k, (4 + 5j) * k), False))
     # nearly circular ellipses (radii 1e-5 .. 1e-3 relative apart): the speed is not constant
     S.append(('arc-near-circle', lambda k: sp.Arc(0j, complex(100, 100.0009) * k, 0, True, True, (120 + 90j) * k), False))
     S.append(('arc-near-circle-rotated', lambda k: sp.Arc(0j, complex(5, 5.004) * k, 40, False, False, (3 - 6j) * k), False))
@@ -74,6 +78,9 @@ def path_shapes():
     P.append(('path-repeat-lines', lambda k: sp.Path(sp.Line(0j, 100 * k), sp.Line(100 * k, 0j), sp.Line(0j, 100 * k)), True))
     P.append(('path-repeat-cubic', lambda k: sp.Path(sp.CubicBezier(0j, (1 + 2j) * k, (2 + 4j) * k, (3 + 6j) * k), sp.Line((3 + 6j) * k, 0j),
                                                       sp.CubicBezier(0j, (1 + 2j) * k, (2 + 4j) * k, (3 + 6j) * k)), True))
+    # point-like members (a repeated vertex, a cubic whose four control points coincide) between ordinary segments
+    P.append(('path-with-zero-length-members', lambda k: sp.Path(sp.Line(0j, 3 * k), sp.Line(3 * k, 3 * k), sp.CubicBezier(3 * k, (4 + 3j) * k, (6 + 3j) * k, (7 + 0j) * k),
+                                                                 sp.CubicBezier(7 * k, 7 * k, 7 * k, 7 * k), sp.QuadraticBezier(7 * k, (8 + 2j) * k, (10 + 0j) * k)), False))
     # generic coordinates (non-dyadic): the running sum of the segment lengths rounds, which matters for s exactly on a joint
     def generic(seed):
         def mk(k):
